@@ -655,3 +655,77 @@
     #[kani::stub(crate::error_eof, crate::vk::err_eof)]
     #[kani::stub(alloc::vec::Vec::with_capacity, vec_cap_stub)]
     fn c06_xz_index_count_k9_e4() { xz_index_count(9, 4); }
+
+    /// BlockHeader::parse by contract for these inputs: the next byte is the index indicator 0x00 => Ok(None)
+    fn bh_index_follows<R: Read>(reader: &mut R) -> Result<Option<BlockHeader>> {
+        let b = reader.read_u8()?;
+        assert!(b == 0);
+        Ok(None)
+    }
+    static mut INDEX_CALLS: u32 = 0;
+    static mut NEXT_CALLS: u32 = 0;
+    static mut NEXT_RESULT: bool = false;
+    /// contract stubs (each proved by its own unit: C02.xz.index.r / C04.xz.hdrs resp. C12.xz.pad): here only *whether* and
+    /// *in which order* they are called matters
+    fn index_footer_stub<'r, R: Read + 'r>(_s: &mut XZReader<'r, R>) -> Result<()> { unsafe { INDEX_CALLS += 1; } Ok(()) }
+    fn next_stream_stub<'r, R: Read + 'r>(s: &mut XZReader<'r, R>) -> Result<bool> {
+        unsafe {
+            assert!(INDEX_CALLS > NEXT_CALLS);          // only after the previous stream's index and footer were verified
+            NEXT_CALLS += 1;
+            if NEXT_RESULT && NEXT_CALLS == 1 { s.blocks_processed = 0; return Ok(true); }
+            Ok(false)
+        }
+    }
+
+    /// C16.xz.stop / C12.xz.next: control flow at the end of the blocks: the index and footer are always verified; in
+    /// single-stream mode the reader then is finished *without touching the source again* (no look-ahead for a next
+    /// stream); in multi-stream mode it looks for a next stream exactly once per finished stream and continues with its
+    /// blocks when there is one.
+    fn xz_end_of_blocks(multi: bool, next: bool) {
+        let buf: [u8; 4] = [0, 0, 7, 7];
+        unsafe { INDEX_CALLS = 0; NEXT_CALLS = 0; NEXT_RESULT = next; }
+        let mut r = XZReader::new(vk::Src::<4>::new(buf, 4), multi);
+        r.stream_header = Some(StreamHeader { check_type: CheckType::Crc32 });
+        let res = r.prepare_next_block();
+        assert!(matches!(res, Ok(false)));
+        assert!(r.finished);
+        if !multi {
+            assert!(unsafe { INDEX_CALLS } == 1 && unsafe { NEXT_CALLS } == 0);
+            assert!(r.original_reader.borrow().pos == 1);      // only the index indicator was read by this function
+        } else if next {
+            // second stream (here again without blocks) was entered and finished too
+            assert!(unsafe { INDEX_CALLS } == 2 && unsafe { NEXT_CALLS } == 2);
+            assert!(r.original_reader.borrow().pos == 2);
+        } else {
+            assert!(unsafe { INDEX_CALLS } == 1 && unsafe { NEXT_CALLS } == 1);
+        }
+        core::mem::forget(r);
+    }
+    #[kani::proof]
+    #[kani::unwind(6)]
+    //@ERR
+    #[kani::stub(BlockHeader::parse, bh_index_follows)]
+    #[kani::stub(XZReader::parse_index_and_footer, index_footer_stub)]
+    #[kani::stub(XZReader::try_start_next_stream, next_stream_stub)]
+    fn c16_xz_end_of_blocks_single() { xz_end_of_blocks(false, false); }
+    #[kani::proof]
+    #[kani::unwind(6)]
+    //@ERR
+    #[kani::stub(BlockHeader::parse, bh_index_follows)]
+    #[kani::stub(XZReader::parse_index_and_footer, index_footer_stub)]
+    #[kani::stub(XZReader::try_start_next_stream, next_stream_stub)]
+    fn c16_xz_end_of_blocks_single_ignores_next() { xz_end_of_blocks(false, true); }
+    #[kani::proof]
+    #[kani::unwind(6)]
+    //@ERR
+    #[kani::stub(BlockHeader::parse, bh_index_follows)]
+    #[kani::stub(XZReader::parse_index_and_footer, index_footer_stub)]
+    #[kani::stub(XZReader::try_start_next_stream, next_stream_stub)]
+    fn c16_xz_end_of_blocks_multi_none() { xz_end_of_blocks(true, false); }
+    #[kani::proof]
+    #[kani::unwind(6)]
+    //@ERR
+    #[kani::stub(BlockHeader::parse, bh_index_follows)]
+    #[kani::stub(XZReader::parse_index_and_footer, index_footer_stub)]
+    #[kani::stub(XZReader::try_start_next_stream, next_stream_stub)]
+    fn c16_xz_end_of_blocks_multi_next() { xz_end_of_blocks(true, true); }
